@@ -471,6 +471,18 @@ func (a *engineAPI) NewPayloadV4(ed engine.ExecutableData, hashes []common.Hash,
 		}
 	}
 	defer f.mu.Unlock()
+	// a block the client already has (the genesis block after a failed first block message, or the
+	// unchanged head that is re-announced when a block message failed) is simply VALID
+	f.B.mu.Lock()
+	known, isKnown := f.B.blocks[ed.BlockHash]
+	f.B.mu.Unlock()
+	if isKnown && known.Number == ed.Number {
+		c.Result = "VALID(known)"
+		if ft == nil {
+			f.logCall(c)
+		}
+		return st, nil
+	}
 	// a real execution client recomputes the header hash
 	if BlockHashOf(&ed, br, rr) != ed.BlockHash {
 		msg := "blockhash mismatch"
